@@ -25,6 +25,9 @@ class PrintUsingFormatter:
                 else:
                     i += n
                     self.fmt_parts.append(part)
+                    # scan the next character afresh: it may start
+                    # another field
+                    continue
 
             if i >= len(fmt):
                 break
